@@ -82,6 +82,27 @@ struct Harness {
         (void)wtxid;
         return idx;
     }
+    // a ConnectionType::PRIVATE_BROADCAST connection (outbound): InitializeNode, our VERSION, the peer's VERSION and VERACK
+    int add_private_conn(const CService& svc)
+    {
+        CAddress addr(svc, ServiceFlags(NODE_NETWORK | NODE_WITNESS));
+        int idx = nodes.size();
+        by_addr[addr.ToStringAddrPort()] = idx;
+        nodes.push_back(new CNode(next_id++, /*sock=*/nullptr, addr, /*nKeyedNetGroupIn=*/idx + 1, /*nLocalHostNonceIn=*/idx + 1,
+                                  CAddress(), /*addrNameIn=*/"", ConnectionType::PRIVATE_BROADCAST, /*inbound_onion=*/false, /*network_key=*/0));
+        CNode& node = *nodes.back();
+        connman->AddTestNode(node);
+        {
+            LOCK(NetEventsInterface::g_msgproc_mutex);
+            peerman->InitializeNode(node, ServiceFlags(NODE_NONE));
+            peerman->SendMessages(node);
+            connman->FlushSendBuffer(node);
+        }
+        deliver(idx, NetMsg::Make(NetMsgType::VERSION, PROTOCOL_VERSION, Using<CustomUintFormatter<8>>(ServiceFlags(NODE_NETWORK | NODE_WITNESS)), int64_t{}, int64_t{},
+                                  CNetAddr::V1(CService{}), int64_t{}, CNetAddr::V1(CService{}), uint64_t{1}, std::string{}, int32_t{}, true));
+        if (!node.fDisconnect) deliver(idx, NetMsg::Make(NetMsgType::VERACK));
+        return idx;
+    }
     // deliver one message from the peer and let the node process it
     void deliver(int peer, CSerializedNetMsg&& msg)
     {
